@@ -358,6 +358,7 @@ func runC12(r *mc.Run) {
 
 	c12Composed(r)
 	c12HeaderSpellings(r)
+	c12SecondEntryPoint(r)
 
 	// (b) histories through one shared options value on a virtual clock
 	if !strings.Contains(os.Getenv("VERIF_OVERLAY"), "time") {
@@ -365,6 +366,72 @@ func runC12(r *mc.Run) {
 		return
 	}
 	c12Histories(r)
+}
+
+// c12SecondEntryPoint: verify.SupportedTcbLevelsFromCollateral is the other exported function that works on an options
+// value. Whatever was verified through that value before, with collateral checking off at the time of the call it
+// performs no fetch at all (and with it on it requests nothing but the four documents).
+func c12SecondEntryPoint(r *mc.Run) {
+	type first struct {
+		name       string
+		coll, crl  bool
+		run, other bool
+	}
+	firsts := []first{{"nothing-before", false, false, false, false}, {"TdxQuote/L0", false, false, true, false}, {"TdxQuote/L1", true, false, true, false}, {"TdxQuote/L2", true, true, true, false},
+		{"TdxQuote/revocation-without-collateral", false, true, true, false}, {"TdxQuote/L0-on-another-quote", false, false, true, true}, {"TdxQuote/L0-twice", false, false, true, false}}
+	n := 0
+	for fi, f := range firsts {
+		for _, sw := range []struct {
+			name      string
+			coll, crl bool
+		}{{"collateral-off", false, false}, {"collateral-off,revocation-on", false, true}, {"collateral-on", true, false}, {"both-on", true, true}} {
+			id := fmt.Sprintf("second-entry-point/after=%s/switches=%s", f.name, sw.name)
+			if !r.Want(id) {
+				continue
+			}
+			n++
+			w := world.Honest("T")
+			g := w.Getter.Clone()
+			now := w.Now
+			o := &verify.Options{GetCollateral: f.coll, CheckRevocations: f.crl, Getter: g, Now: &now, TrustedRoots: w.Roots}
+			raw := w.Raw()
+			if f.run {
+				vr := raw
+				if f.other {
+					w2 := world.Honest("T")
+					w2.Plat.FMSPC = []byte{0xde, 0xad, 0xbe, 0xef, 0, 1}
+					w2.PKI = world.CachedPKI("T").WithLeaf(w2.Plat)
+					w2.Spec.PKI = w2.PKI
+					w2.Parts = w2.Spec.Parts()
+					vr = w2.Raw()
+				}
+				world.SafeVerifyRaw(vr, o)
+				if fi == len(firsts)-1 {
+					world.SafeVerifyRaw(vr, o)
+				}
+			}
+			o.GetCollateral, o.CheckRevocations = sw.coll, sw.crl
+			before := len(g.Log)
+			q, perr := safeToProto(raw)
+			if perr != nil {
+				r.HarnessError("C12: baseline quote does not parse: %v", perr)
+				return
+			}
+			var err error
+			func() {
+				defer world.Recover(&err)
+				_, _, err = verify.SupportedTcbLevelsFromCollateral(q, o)
+			}()
+			fetched := g.Log[before:]
+			out := fmt.Sprintf("%s,fetches=%d", verdict(err), len(fetched))
+			if !sw.coll && len(fetched) > 0 && !world.IsPanic(err) {
+				r.Violate("second-entry-point:fetch-with-collateral-off", id, fmt.Sprintf("GetCollateral is false but SupportedTcbLevelsFromCollateral requested %v", fetched), nil)
+				out += "!"
+			}
+			r.Eval(id, true, "second-entry-point:"+out)
+		}
+	}
+	r.SectionDone(mc.Section{Name: "second-entry-point", Evaluations: int64(n), Exhaustive: true})
 }
 
 // c12HeaderSpellings: responses whose header map carries the issuer chain under SEVERAL spellings of the header name
